@@ -1,7 +1,9 @@
 (* C09 model driver: rebuilds the hierarchy of every case in the extracted Gallina model and answers
    the query script.  Numbers: doubles arrive as 16 hex digits of their bit pattern and become the
    exact rational they denote (q_of_bits); results leave as integers on the 2^-20 grid (grid_round,
-   halves away from zero = llround) in hex — the same text the harness prints for the library. *)
+   halves away from zero = llround) in hex — the same text the harness prints for the library.
+   Hulls are printed in the canonical form of BBox.canon_pts (grid points, strict hull, corners within
+   8 grid units of their neighbours' chord dropped, sorted). *)
 open C09
 open Conv
 
@@ -13,7 +15,7 @@ let show_box = function
   | Box (x0, y0, x1, y1) ->
       "b:" ^ String.concat "," (List.map (fun q -> show_z (grid_round q)) [x0; y0; x1; y1])
 let show_hull (h : (q * q) list) =
-  "h:" ^ string_of_int (List.length h) ^ ":" ^
+  "h:" ^
   String.concat "/" (List.map (fun (x, y) -> show_z x ^ "," ^ show_z y) (canon_pts h))
 
 exception Bad of string
